@@ -606,7 +606,7 @@ def oneof_roundtrip(ctx, enum_adt, enc_fn, dec_fn, oneof_adt, rule='oneof-tag-ro
         t = b['t']
         if t[0] == 'switch' and t[1][0] in ('c', 'm') and not t[1][1][1] and t[1][1][0] in discr_locals and (sw is None or len(t[2]) > len(sw[2])):
             sw = t
-    if sw is None or len(sw[2]) < 5:
+    if sw is None or len(sw[2]) < 3:
         ctx.lost(rule, dec_fn + ' (match on the oneof)')
         return 0
     wnames = variant_names(f, oneof_adt)
